@@ -463,6 +463,20 @@ func init() {
 		}
 		return math.Mod(x, y)
 	}
+	intrinsics["math.Modf"] = func(e *Exec, _ *frame, args []Value) Value {
+		switch x := args[0].(type) {
+		case float64:
+			ip, frac := math.Modf(x)
+			return Tuple{ip, frac}
+		case Sym:
+			// the integer part is the operand rounded toward zero, the fraction what remains (exact);
+			// a zero operand is both parts (keeps the sign of zero), an infinity leaves NaN
+			ip := e.tt.FPRound("RTZ", x.t)
+			frac := e.tt.Ite(e.tt.FPCmp("fp.eq", x.t, e.tt.fpConst(x.t.sort, 0)), x.t, e.tt.FPBin("fp.sub", x.t, ip))
+			return Tuple{e.fromTerm(ip), e.fromTerm(frac)}
+		}
+		panic("Modf")
+	}
 	intrinsics["math.Pow10"] = func(e *Exec, _ *frame, args []Value) Value {
 		n := e.path.concretizeVal(e, args[0], "math.Pow10")
 		return math.Pow10(int(n))
